@@ -126,8 +126,25 @@ func (n *vfScoreNode) observe() (lit string, rec map[string]any, nan bool) {
 		pl = append(pl, fmt.Sprintf("(%d, {| ob_score := %s; ob_bp := %s; ob_connected := %v; ob_topics := [%s] |})", i, vfF(sc), vfF(st.behaviourPenalty), st.connected, strings.Join(tl, "; ")))
 		recp[strconv.Itoa(i)] = map[string]any{"score": fmt.Sprint(sc), "bp": st.behaviourPenalty, "connected": st.connected, "topics": rect}
 	}
-	lit = fmt.Sprintf("{| so_peers := [%s]; so_nrecs := %d |}", strings.Join(pl, "; "), len(n.ps.deliveries.records))
-	return lit, map[string]any{"peers": recp, "records": len(n.ps.deliveries.records)}, nan
+	// the IP colocation sets (addresses are 10.0.0.k in this harness)
+	var ipl []string
+	reci := map[string]any{}
+	for ip, set := range n.ps.peerIPs {
+		var k int
+		fmt.Sscanf(ip, "10.0.0.%d", &k)
+		var ps []int
+		for p := range set {
+			ps = append(ps, n.idx[p])
+		}
+		sort.Ints(ps)
+		if len(ps) > 0 {
+			ipl = append(ipl, fmt.Sprintf("(%d, %s)", k, vfNats(ps)))
+			reci[ip] = ps
+		}
+	}
+	sort.Strings(ipl)
+	lit = fmt.Sprintf("{| so_peers := [%s]; so_nrecs := %d; so_ipsets := [%s] |}", strings.Join(pl, "; "), len(n.ps.deliveries.records), strings.Join(ipl, "; "))
+	return lit, map[string]any{"peers": recp, "records": len(n.ps.deliveries.records), "ip_sets": reci}, nan
 }
 
 func vfScoreHistory(t *testing.T, rng *rand.Rand, nops int, style int) (lit string, rec map[string]any, nontrivial bool, panicked string) {
@@ -253,6 +270,41 @@ func vfScoreHistory(t *testing.T, rng *rand.Rand, nops int, style int) (lit stri
 					n.ps.OnClosedOutboundStream(pids[p])
 					emit(fmt.Sprintf("fRemovePeer %d %s", p, vfF(app)))
 				}
+			}
+			if style == 5 {
+				// a peer with an address and a non-positive score leaves, stays away for longer than the retention period, comes
+				// back (with no address yet) before the next decay tick has collected the record, leaves again, and is collected
+				setIP := func(p int, k int) {
+					ips := []string{fmt.Sprintf("10.0.0.%d", k)}
+					n.ps.Lock()
+					if st, ok := n.ps.peerStats[pids[p]]; ok {
+						n.ps.setIPs(pids[p], ips, st.ips)
+						st.ips = ips
+					}
+					n.ps.Unlock()
+					emit(fmt.Sprintf("fSetIPs %d [%d]", p, k))
+				}
+				n.ps.OnNewOutboundStream(pids[0], GossipSubID_v11)
+				emit("fAddPeer 0")
+				setIP(0, 1)
+				app := n.app[pids[0]]
+				n.ps.OnClosedOutboundStream(pids[0])
+				emit(fmt.Sprintf("fRemovePeer 0 %s", vfF(app)))
+				d := params.RetainScore + time.Duration(1+rng.Intn(3))*time.Second
+				time.Sleep(d)
+				emit(fmt.Sprintf("fAdvance %s", vfZ(int64(d))))
+				n.ps.OnNewOutboundStream(pids[0], GossipSubID_v11)
+				emit("fAddPeer 0")
+				if rng.Intn(2) == 0 {
+					setIP(0, 2)
+				}
+				app = n.app[pids[0]]
+				n.ps.OnClosedOutboundStream(pids[0])
+				emit(fmt.Sprintf("fRemovePeer 0 %s", vfF(app)))
+				time.Sleep(d)
+				emit(fmt.Sprintf("fAdvance %s", vfZ(int64(d))))
+				n.ps.refreshScores()
+				emit("fRefresh")
 			}
 			if style == 3 {
 				// one peer delivers first on both topics
@@ -413,6 +465,9 @@ func TestVF_Score(t *testing.T) {
 		}
 		if c%10 == 6 {
 			style = 4
+		}
+		if c%10 == 2 {
+			style = 5
 		}
 		lit, rec, nt, pan := vfScoreHistory(t, rng, 40+rng.Intn(80), style)
 		if pan != "" && viol == nil {
